@@ -354,6 +354,12 @@ def collect_into(m, it, target):
     if t in ("Box",):
         return VecObj(xs)
     c = new_container(m, t)
+    if c is None and (t in m.td.structs or t in m.td.enums) and (t, "Extend") in m.world.impl_pairs():
+        # a crate collection: Default::default() then Extend::extend (what FromIterator-like adapters such as partition_map do)
+        val = m.call_path(f"<{target} as Default>::default", [])
+        cell = [val]
+        m.call_path(f"<{target} as Extend<_>>::extend", [Ref(cell, 0), ListIt(xs)])
+        return cell[0]
     if c is None: raise Unsupported("collect into " + str(target))
     cell = [c]
     extend_container(m, Ref(cell, 0), xs)
